@@ -5,10 +5,13 @@ pub mod c01;
 pub mod c02;
 pub mod c03;
 pub mod c04;
+pub mod c07;
 pub mod c08;
 pub mod c11;
 pub mod c14;
 pub mod c15;
+pub mod c16;
+pub mod c17;
 
 pub fn run(id: &str, rep: &mut Report) -> bool {
     match id {
@@ -16,10 +19,13 @@ pub fn run(id: &str, rep: &mut Report) -> bool {
         "C02" => c02::run(rep),
         "C03" => c03::run(rep),
         "C04" => c04::run(rep),
+        "C07" => c07::run(rep),
         "C08" => c08::run(rep),
         "C11" => c11::run(rep),
         "C14" => c14::run(rep),
         "C15" => c15::run(rep),
+        "C16" => c16::run(rep),
+        "C17" => c17::run(rep),
         _ => return false,
     }
     true
@@ -32,10 +38,13 @@ pub fn replay(id: &str, v: &Value) -> i32 {
         "C02" => c02::replay(w),
         "C03" => c03::replay(w),
         "C04" => c04::replay(w),
+        "C07" => c07::replay(w),
         "C08" => c08::replay(w),
         "C11" => c11::replay(w),
         "C14" => c14::replay(w),
         "C15" => c15::replay(w),
+        "C16" => c16::replay(w),
+        "C17" => c17::replay(w),
         _ => {
             eprintln!("unknown property id {}", id);
             return 2;
